@@ -90,9 +90,14 @@ ASSUMPTIONS = [
     "block update tolerance 1e-10 * max(1,|H|) * max(1, amplification) (torch and numpy agree to 5e-14 on HEAD); the numpy "
     "reference follows the operator's stopping rule: start at the conditioning field, iterate while |gradient| > stop_value "
     "and fewer than max_iterations steps",
-    "tuning direction: for each operator type the harness measures, with common random numbers on a fixed small target, "
-    "whether the squared jump of the parameters whose proposal the tuning parameter scales (block update: the "
-    "precision) grows or shrinks with tuning_parameter; DualAveragingStepSize is not generated (not monotone per step)",
+    "tuning direction: the size of the proposal is boldness(type, tuning_parameter), read off the proposal law (scaler / block "
+    "update: log-width of the multiplier interval between t and 1/t - the same on both sides of 1; sliding window: |width|; "
+    "Dirichlet: total variance 1/(c+1); HMC: |step size|), evaluated before and after every tune() call; selftest() samples "
+    "proposals of every operator with common random numbers on a grid of tuning parameters (scaler on both sides of 1) and "
+    "requires their spread to grow exactly as boldness() says; DualAveragingStepSize is not generated (not monotone per step)",
+    "sub-check tune_sequences: an operator built from JSON on a fixed small target, initial tuning parameter over the whole "
+    "admissible range incl. next to the boundary, tune() called directly up to 8000 times with generated segments of "
+    "acceptance probabilities (0, below target, above target, 1; lengths 1..3000): same clause after every call",
     "non-finite combinations the statement determines: current -inf (zero density, only possible at the start of a run: a start "
     "outside a bounded prior made with validate_args=False through the Distribution constructor) and finite proposal: change = "
     "+inf, min(1, exp(.)) = 1, the move must be accepted whatever the draw and tune() gets 1; finite -> -inf and finite -> NaN: "
@@ -165,6 +170,10 @@ def toy_block(draw, i, kind):
         b.update(conc=[draw(logu(0.5, 8.0)) for _ in range(n)], rate=[draw(logu(0.2, 5.0)) for _ in range(n)], init=[draw(logu(0.05, 10.0)) for _ in range(n)])
     elif kind == "lognormal":
         b.update(loc=[draw(fl(-2.0, 2.0)) for _ in range(n)], scale=[draw(logu(0.2, 2.0)) for _ in range(n)], init=[draw(logu(0.05, 10.0)) for _ in range(n)])
+        if draw(st.sampled_from([False, False, True])):
+            # narrow target: most proposals of an operator of ordinary size are rejected (long reject sequences, tuning under load)
+            b["scale"] = [draw(logu(0.003, 0.05)) for _ in range(n)]
+            b["init"] = [math.exp(m) * draw(fl(0.95, 1.05)) for m in b["loc"]]
     elif kind == "dirichlet":
         n = draw(st.integers(2, 5))
         b.update(n=n, alpha=[draw(fl(1.5, 6.0)) for _ in range(n)], init=draw(simplex(n, spread=draw(fl(0.0, 2.0)))))
@@ -433,7 +442,7 @@ def operators(draw, c):
         if kind == "scaler":
             o["params"] = draw(subset(pos))
             # incl. scale factors within 1e-7..1e-2 of one (moves far smaller than any tolerance-based comparison)
-            o["tuning"] = draw(st.one_of(logu(1e-3, 0.95), logu(1e-3, 0.95), logu(1e-7, 1e-2).map(lambda e: 1.0 - e)))
+            o["tuning"] = draw(st.one_of(logu(1e-3, 0.95), fl(0.5, 0.999), logu(1e-7, 1e-2).map(lambda e: 1.0 - e)))  # whole range (0,1), up to the boundary
         elif kind == "sliding":
             # on unconstrained parameters, or on positive ones whose out-of-support value gives a non-finite
             # target (outright rejection in MCMC.run); never on a parameter whose density validates its argument
@@ -1110,9 +1119,6 @@ def hastings_oracle(c, o, op, r):
 
 
 # =========================================================================== tuning direction (measured)
-_BOLD = {}
-
-
 def _measure_case(kind):
     if kind == "block":
         g = {"n": 4, "samp": [0.0, 0.5, 1.0, 0.0], "coal": [1.5, 2.5, 4.0], "joins": [[0, 1], [2, 3], [4, 5]]}
@@ -1128,40 +1134,63 @@ def _measure_case(kind):
     return c, par, lo, hi
 
 
-def bold_sign(kind):
-    """+1 when proposals get bolder (mean squared jump grows) as tuning_parameter grows, -1 when they
-    get more timid; measured with common random numbers (paired over 120 seeds)"""
-    if kind in _BOLD:
-        return _BOLD[kind]
-    c, par, lo, hi = _measure_case(kind)
-    jumps = []
-    for tp in (lo, hi):
-        o = {"type": kind, "id": "op0", "params": par, "weight": 1.0, "target_acc": 0.3, "adapt": False, "tuning": tp, "steps": 3, "mass": [1.0] * 3, "adaptor": "none"}
-        cc_ = dict(c, ops=[o])
-        state = initial_state(cc_)
-        tmp = tempfile.mkdtemp(prefix="c15m-")
-        try:
-            dic, mc = build_all(cc_, state, tmp, [])
-        finally:
-            shutil.rmtree(tmp, ignore_errors=True)
-        op = mc._operators[0]
-        watch = ["tau"] if kind == "block" else par
-        js = []
-        for seed in range(120):
-            torch.manual_seed(1000 + seed)
-            for i in state:  # the harness, not the operator, puts the state back (reject() is under test)
-                dic[i].tensor = tt.T(state[i])
-            b = {i: dic[i].tensor.detach().clone() for i in watch}
-            op.step()
-            js.append(sum(float(((dic[i].tensor.detach() - b[i]) ** 2).sum()) for i in watch))
-        jumps.append(np.asarray(js))
-    d = jumps[1] - jumps[0]
-    sd = d.std(ddof=1)
-    t = d.mean() / (sd / math.sqrt(len(d))) if sd > 0 else (math.inf if d.mean() != 0 else 0.0) * np.sign(d.mean())
-    if not abs(t) > 4.0:
-        raise HarnessError("C15: cannot measure the bold direction of %s (paired t = %s)" % (kind, t))
-    _BOLD[kind] = 1 if t > 0 else -1
-    return _BOLD[kind]
+def boldness(kind, tp):
+    """size of the proposal as a function of the tuning parameter, read off the proposal law itself (not off a sign
+    convention of the tuning parameter); calibrated against the spread of sampled proposals in selftest():
+      scaler     multiplier uniform on the interval between tp and 1/tp: width of that interval on the log scale
+      sliding    shift uniform on an interval of width |tp|
+      dirichlet  Dirichlet(tp * x): total variance sum x_i (1 - x_i) / (tp + 1)
+      block      precision factor on [1/tp, tp]: width on the log scale
+      hmc        leapfrog with step size tp: displacement proportional to |tp|"""
+    tp = float(tp)
+    if kind in ("scaler", "block"):
+        return 2.0 * abs(math.log(tp)) if tp > 0 else math.inf
+    if kind == "dirichlet":
+        return 1.0 / (tp + 1.0)
+    return abs(tp)
+
+
+BOLD_GRID = {"scaler": [0.97, 0.8, 1.6, 0.3, 5.0, 0.05], "sliding": [1e-3, 0.05, 0.2, 2.0, 20.0], "dirichlet": [2000.0, 300.0, 30.0, 5.0],
+             "block": [1.05, 1.3, 3.0, 6.0], "hmc": [0.002, 0.02, 0.2]}
+
+
+def measured_spread(kind, tp, nseeds=120):
+    """squared jump of the parameters whose proposal the tuning parameter scales (block update: the precision), one value
+    per generator seed (common random numbers across tuning parameters)"""
+    c, par, _, _ = _measure_case(kind)
+    o = {"type": kind, "id": "op0", "params": par, "weight": 1.0, "target_acc": 0.3, "adapt": False, "tuning": tp, "steps": 3, "mass": [1.0] * 3, "adaptor": "none"}
+    cc_ = dict(c, ops=[o])
+    state = initial_state(cc_)
+    tmp = tempfile.mkdtemp(prefix="c15m-")
+    try:
+        dic, mc = build_all(cc_, state, tmp, [])
+    finally:
+        shutil.rmtree(tmp, ignore_errors=True)
+    op = mc._operators[0]
+    watch = ["tau"] if kind == "block" else par
+    js = []
+    for seed in range(nseeds):
+        torch.manual_seed(1000 + seed)
+        for i in state:  # the harness, not the operator, puts the state back (reject() is under test)
+            dic[i].tensor = tt.T(state[i])
+        b = {i: dic[i].tensor.detach().clone() for i in watch}
+        op.step()
+        js.append(sum(float(((dic[i].tensor.detach() - b[i]) ** 2).sum()) for i in watch))
+    return np.asarray(js)
+
+
+def calibrate_boldness():
+    """the spread of proposals actually sampled from each operator grows along the grid exactly as boldness() says
+    (the grid of the scaler has values on both sides of 1)"""
+    for kind, grid in BOLD_GRID.items():
+        grid = sorted(grid, key=lambda v: boldness(kind, v))
+        spreads = [measured_spread(kind, v) for v in grid]
+        for a, b, sa, sb in zip(grid[:-1], grid[1:], spreads[:-1], spreads[1:]):
+            d = sb - sa
+            sd = d.std(ddof=1)
+            t = d.mean() / (sd / math.sqrt(len(d))) if sd > 0 else (math.inf if d.mean() > 0 else -math.inf)
+            if not t > 4.0:
+                raise HarnessError("C15: sampled proposals of %s at tuning parameter %r are not bolder than at %r (paired t = %s)" % (kind, b, a, t))
 
 
 # =========================================================================== body
@@ -1247,7 +1276,6 @@ def _body(c, tmp):
             labels["raised:" + what] = 1
 
     trace = R.trace
-    signs = {k: bold_sign(k) for k in set(o["type"] for o in c["ops"])}
     # ---------------------------------------------------------------- the chain
     cur = start
     if not same(cur, {i: tt.T(state0[i]) for i in ids}):
@@ -1409,7 +1437,7 @@ def _body(c, tmp):
                     fail("tune_disabled", dict(where, before=tp0, after=tp1), cls)
             else:
                 nchecked["f"] += 1
-                move = (tp1 - tp0) * signs[o["type"]]
+                move = boldness(o["type"], tp1) - boldness(o["type"], tp0)  # > 0: the next proposals are bolder
                 if alpha_ref is not None:  # judged by this iteration's own acceptance probability, whatever tune() was handed
                     acc = alpha_ref
                 side = "above" if acc > o["target_acc"] else ("below" if acc < o["target_acc"] else None)
@@ -1419,7 +1447,7 @@ def _body(c, tmp):
                     if cls == BLOCK:
                         extra["reflected"] = bool(math.sqrt(max(tp0 - 1.0, 0.0)) + (acc - o["target_acc"]) / (2 + r["adapt_count"]) < 0)
                     fail("tune_direction", dict(where, acceptance=acc, passed_to_tune=r["acc_prob"], outright_rejection=outright, target=o["target_acc"], tuning_before=tp0, tuning_after=tp1,
-                                                bolder_when_tuning_parameter="grows" if signs[o["type"]] > 0 else "shrinks"), cls, side=side, **extra)
+                                                boldness_before=boldness(o["type"], tp0), boldness_after=boldness(o["type"], tp1)), cls, side=side, **extra)
         cur = r.get("end", after)
         state_at[r["epoch"]] = after
     current["rep"] = None
@@ -1556,14 +1584,81 @@ def selftest():
         p = lambda x: 1.0 + 1.0 / x  # noqa
         if abs(p(1.0 / f) / (f * p(f)) - 1.0) > 1e-14:
             raise HarnessError("C15 selftest: precision proposal symmetry")
-    # measured bold directions are the ones the proposals' definitions imply
-    want = {"scaler": -1, "sliding": 1, "dirichlet": -1, "block": 1, "hmc": 1}
-    for k_, v in want.items():
-        if bold_sign(k_) != v:
-            raise HarnessError("C15 selftest: measured bold direction of %s is %d" % (k_, bold_sign(k_)))
+    calibrate_boldness()
+
+
+# =========================================================================== tune() driven directly
+LEVELS = ["zero", "below", "below", "above", "above", "one"]
+
+
+@st.composite
+def tune_cases(draw):
+    kind = draw(st.sampled_from(["scaler", "scaler", "sliding", "dirichlet", "block", "hmc", "hmc_adaptive"]))
+    base = kind.split("_")[0]
+    tuning = draw({
+        "scaler": st.one_of(logu(1e-4, 0.5), fl(0.5, 0.999), logu(1e-7, 1e-3).map(lambda e: 1.0 - e)),
+        "sliding": logu(1e-7, 1e3), "dirichlet": logu(1e-2, 1e5),
+        "block": st.one_of(st.just(1.0), logu(1e-6, 10.0).map(lambda e: 1.0 + e)), "hmc": logu(1e-6, 10.0)}[base])
+    target = draw(fl(0.05, 0.95))
+    segs = []
+    for _ in range(draw(st.integers(1, 6))):
+        segs.append({"n": draw(st.sampled_from([1, 2, 5, 20, 100, 1000, 3000])), "level": draw(st.sampled_from(LEVELS)), "f": draw(fl(0.0, 1.0))})
+    return {"kind": kind, "tuning": tuning, "target_acc": target, "segments": segs}
+
+
+def _level_acc(seg, target):
+    if seg["level"] == "zero":
+        return 0.0
+    if seg["level"] == "one":
+        return 1.0
+    if seg["level"] == "below":
+        return target * seg["f"]
+    return target + (1.0 - target) * seg["f"]
+
+
+def body_tune(c):
+    """an operator built from its specification; tune() called directly with a generated sequence of acceptance
+    probabilities (long runs of rejections, then acceptances, ...): after every call the proposal law must not be more
+    timid when the acceptance was above target, nor bolder when it was below"""
+    kind = c["kind"].split("_")[0]
+    cc_, par, _, _ = _measure_case(kind)
+    o = {"type": kind, "id": "op0", "params": par, "weight": 1.0, "target_acc": c["target_acc"], "adapt": True, "tuning": c["tuning"], "steps": 3, "mass": [1.0] * 3,
+         "adaptor": "adaptive" if c["kind"].endswith("adaptive") else "none"}
+    cc_ = dict(cc_, ops=[o])
+    tmp = tempfile.mkdtemp(prefix="c15t-")
+    try:
+        dic, mc = build_all(cc_, initial_state(cc_), tmp, [])
+    finally:
+        shutil.rmtree(tmp, ignore_errors=True)
+    op = mc._operators[0]
+    cls = type(op).__name__
+    res = Res(nontrivial=False, key=c, tags={"cls": cls, "route": "direct_tune"})
+    n = above = below = 0
+    reported = set()
+    for seg in c["segments"]:
+        acc = _level_acc(seg, c["target_acc"])
+        for _ in range(seg["n"]):
+            if n >= 8000:
+                break
+            n += 1
+            tp0 = float(op.tuning_parameter)
+            op.tune(torch.tensor(acc), sample=n, accepted=acc >= 0.5)
+            tp1 = float(op.tuning_parameter)
+            move = boldness(kind, tp1) - boldness(kind, tp0)
+            side = "above" if acc > c["target_acc"] else ("below" if acc < c["target_acc"] else None)
+            above += side == "above"
+            below += side == "below"
+            if ((side == "above" and move < 0) or (side == "below" and move > 0)) and side not in reported:
+                reported.add(side)
+                res.fail("tune_direction", {"call": n, "acceptance": acc, "target": c["target_acc"], "tuning_before": tp0, "tuning_after": tp1,
+                                            "boldness_before": boldness(kind, tp0), "boldness_after": boldness(kind, tp1)}, side=side)
+    res.nontrivial = above > 0 and below > 0 and n >= 10
+    res.labels = {"kind:" + c["kind"]: 1, "tune_calls": n, "calls_above_target": above, "calls_below_target": below}
+    return res
 
 
 def subchecks(tier):
     return [
         Sub("runs", body, strategy=(lambda: cases(max_iter=150)) if tier == "quick" else cases, quick=200, thorough=4000, raising_is_failure=True, shrink_s=40),
+        Sub("tune_sequences", body_tune, strategy=tune_cases, quick=400, thorough=8000, raising_is_failure=True, shrink_s=20),
     ]
